@@ -184,6 +184,7 @@ class RefWorld:
         self.or_fields_used = False
         self.converted = set()
         self.pad_refused = False
+        self.shared_one_sided = False
         try:
             return "ok", self._apply(op)
         except Expected as e:
@@ -358,6 +359,11 @@ class RefWorld:
                     return pairs[key]
                 if (a is not None and id(a) in partner_a and partner_a[id(a)] != key[1]) or \
                    (b is not None and id(b) in partner_b and partner_b[id(b)] != key[0]):
+                    if a is None or b is None or (a is not None and partner_a.get(id(a), 0) is None) or \
+                       (b is not None and partner_b.get(id(b), 0) is None):
+                        # one array under two names, one of the names missing on the other side: the code keeps the
+                        # names one array (served from the memo), so the "missing" name is not padded (listed finding)
+                        self.shared_one_sided = True
                     raise Skip("the two datasets share objects differently")
                 if a is not None:
                     partner_a[id(a)] = key[1]
